@@ -406,8 +406,10 @@ func (d *LineDetector) buildLines(lineGroups [][]text.TextFragment, pageWidth fl
 		// Calculate indentation (distance from left margin)
 		line.Indentation = line.BBox.X
 
-		// Skip lines that are too narrow
-		if line.BBox.Width < d.config.MinLineWidth {
+		// Skip lines that are too narrow, unless they carry visible text: a lone
+		// narrow glyph ("I", "1") or a short word on a page with scaled-down
+		// coordinates is content, not noise, and must not vanish from the output.
+		if line.BBox.Width < d.config.MinLineWidth && strings.TrimSpace(line.Text) == "" {
 			continue
 		}
 
